@@ -10,9 +10,22 @@
       names, one target-column list for targets and target names ([None] = outside the documented
       domain: split point beyond the data, index out of range, chunk size 0, ...).
     - [Aligned src res]: [res = apply_sel s src] for some selection [s] with all indices in range.
-    - [pairs outs]: the (one-vs-all label, dataset) part of a result list. *)
+    - [pairs outs]: the (one-vs-all label, dataset) part of a result list.
+
+    Extension (C02/Rng.v, C02/Layout.v, C02/ProofsExt.v):
+    - [rword]: one recorded call of the random generator ([next_u32] / [next_u64]) with the value it
+      returned; [sample_below], [gen_index], [fisher_yates], [draw_many]: rand 0.8's uniform integer
+      sampling (widening multiply + rejection zone), [SliceRandom::shuffle] and the bootstrap index loops
+      as functions of the recorded words; [replay q d words]: the call (with its drawn indices) a request
+      [q] amounts to; [apply_rng q words d]: that call applied.
+    - [ldset]: a dataset as it lies in memory - raw vector, offset and strides of records, targets and
+      weights; [logical l]: what the accessors show; [ok_l l]: every logical element lies inside its raw
+      vector; [apply_l raw_w o l]: the operation on the representation ([raw_w]: the owned split cuts the
+      weights in their raw vector, as the code does / in logical order, as the proposed repair does);
+      [layout_rejects o l]: the layouts on which the call panics although the logical call would return.
+    - [carries_weights o]: the eight operations whose results have weights. *)
 From Coq Require Import List NArith ZArith Bool Arith Permutation SpecFloat.
-From LinfaVerif Require Import Common.Num Common.B32 C02.Model C02.Proofs.
+From LinfaVerif Require Import Common.Num Common.B32 C02.Model C02.Rng C02.Layout C02.Proofs C02.ProofsExt.
 Import ListNotations.
 
 Section C02.
@@ -176,4 +189,133 @@ Theorem domain_is_exact : forall (o : op B) (d : dset), WF d -> rng_free B o = t
   (spec A B W Nm beq of_bool o d = None <-> apply A B W Nm beq of_bool o d = None).
 Proof. by_lemma Proofs.domain_exact. Qed.
 
+
+(** * Extension 1: rand's index generation from the words the generator returned *)
+
+(** a uniform draw below [range] (any width, any words, any number of rejections) is below [range] *)
+Theorem uniform_draw_below_bound : forall (w range : N) (words : list rword) v rest,
+  (0 < range)%N -> sample_below w range words = Some (v, rest) -> (v < range)%N.
+Proof. exact ProofsExt.sample_below_lt. Qed.
+
+(** the modelled [SliceRandom::shuffle] of (0..n) returns a permutation of 0..n-1 whatever the words are *)
+Theorem fisher_yates_is_permutation : forall (n : nat) (words : list rword) idx rest,
+  fisher_yates n words = Some (idx, rest) -> Permutation idx (seq 0 n).
+Proof. exact ProofsExt.fisher_yates_perm. Qed.
+
+(** the swap never leaves the slice: the loop fails to return only when some draw does (words
+    exhausted or of the wrong width) *)
+Theorem fisher_yates_fails_only_on_words : forall (n : nat) (words : list rword),
+  fisher_yates n words = None -> exists k ws, k <= n - 1 /\ gen_index (N.of_nat (k + 1)) ws = None.
+Proof. exact ProofsExt.fisher_yates_None. Qed.
+
+(** every request, whatever the generator returns, amounts to a call inside the documented domain:
+    the RNG-driven operations fail to return only on the generator side (empty range, words that do
+    not fit), never because a drawn index is rejected by the selection *)
+Theorem rng_calls_stay_in_domain : forall (q : rreq) (d : dset) words,
+  WF d ->
+  (forall o rest, replay A B W Nm q d words = Some (o, rest) -> exists sp, spec A B W Nm beq of_bool o d = Some sp) /\
+  (apply_rng A B W Nm beq of_bool q words d = None <-> replay A B W Nm q d words = None).
+Proof.
+  intros q d words Hw. split.
+  - intros o rest H. exact (ProofsExt.replay_in_domain A B W Nm beq of_bool q d words o rest H).
+  - exact (ProofsExt.apply_rng_returns A B W Nm beq of_bool beq_spec q d words Hw).
+Qed.
+
+(** shuffle with the modelled generator: a permutation of all (record, target) pairs, weights
+    dropped, names kept - no hypothesis on the drawn indices any more *)
+Theorem shuffle_with_rng_is_permutation : forall (d : dset) words outs, WF d ->
+  apply_rng A B W Nm beq of_bool RShuffle words d = Some outs ->
+  exists idx d', Permutation idx (seq 0 (nsamples d)) /\ pairs outs = [(None, d')] /\
+    d_recs d' = sel (d_recs d) idx /\ d_tgts d' = sel (d_tgts d) idx /\
+    Permutation (combine (d_recs d') (d_tgts d')) (combine (d_recs d) (d_tgts d)) /\
+    d_ws d' = [] /\ d_fn d' = d_fn d /\ d_tn d' = d_tn d.
+Proof. exact (ProofsExt.shuffle_rng_permutes A B W Nm beq of_bool). Qed.
+
+(** bootstrap with the modelled generator: [iters] results, each made of [a] existing samples
+    (record and targets of the same drawn sample) restricted to [b] existing features, no weights *)
+Theorem bootstrap_with_rng_draws_existing : forall (d : dset) a b iters words outs, WF d ->
+  apply_rng A B W Nm beq of_bool (RBootstrap a b iters) words d = Some outs ->
+  length outs = iters /\
+  Forall (fun r : out A B W Nm => exists idx cidx,
+            length idx = a /\ length cidx = b /\
+            Forall (fun i => i < nsamples d) idx /\ Forall (fun j => j < d_nf d) cidx /\
+            d_recs (o_ds r) = map (fun x => sel x cidx) (sel (d_recs d) idx) /\
+            d_tgts (o_ds r) = sel (d_tgts d) idx /\ d_ws (o_ds r) = [] /\ d_nf (o_ds r) = b) outs.
+Proof. exact (ProofsExt.bootstrap_rng_existing A B W Nm beq of_bool). Qed.
+
+(** * Extension 2: memory layouts *)
+
+(** the one equation: for a dataset in ANY layout (Fortran order, strided, reversed, offset slices,
+    transposed - anything whose elements lie inside the raw vectors) every operation returns exactly
+    what it returns on the logical contents, or panics, and [layout_rejects] says exactly when.
+    For the owned ratio split this needs the weights to be cut in logical order ([raw_w = false], the
+    repair) or the weight array to be its own raw vector ([plain_weights]). *)
+Theorem layout_only_panics : forall (raw_w : bool) (o : op B) (l : ldset A B W Nm) (d : dset),
+  ok_l A B W Nm l = true -> logical A B W Nm l = Some d -> WF d ->
+  (forall r, o = OpSplitOwned r -> raw_w = false \/ plain_weights A B W Nm l = true) ->
+  apply_l A B W Nm beq of_bool raw_w o l
+  = if layout_rejects A B W Nm o l then None else apply A B W Nm beq of_bool o d.
+Proof. exact (ProofsExt.layout_only_panics A B W Nm beq of_bool). Qed.
+
+(** the owned ratio split on the representation (is_standard_layout asserts, into_raw_vec, split_off,
+    from_shape_vec): whenever it RETURNS, records and targets were in standard layout with raw vectors
+    of exactly n*width cells, and the result is the split of the logical contents - rows are never
+    mixed silently; a standard-layout array that owns a longer raw vector panics as well *)
+Theorem split_owned_layout_guard : forall (raw_w : bool) ratio (l : ldset A B W Nm) (d : dset) outs,
+  ok_l A B W Nm l = true -> logical A B W Nm l = Some d -> WF d ->
+  (raw_w = false \/ plain_weights A B W Nm l = true) ->
+  split_owned_l A B W Nm raw_w ratio l = Some outs ->
+  is_std2 (l_recs l) = true /\ t_std (l_tgts l) = true /\
+  length (a_buf (l_recs l)) = a_n (l_recs l) * a_w (l_recs l) /\
+  split_owned A B W Nm ratio d = Some outs.
+Proof. exact (ProofsExt.split_owned_layout_guard A B W Nm beq of_bool). Qed.
+
+(** * Extension 3: weights *)
+
+(** weights follow the rows, for every operation: inside the documented domain each result is the
+    selection [rows] of the source's samples - its records and targets are those of exactly these rows -
+    and its weights are the weights of the SAME rows when the operation carries weights
+    ([carries_weights]: both ratio splits, the label filter, one-vs-all, map_targets, view, feature and
+    target iteration), none otherwise (shuffle, the three bootstraps, to_owned, into_single_target,
+    sample iteration, chunks) *)
+Theorem weights_follow_rows : forall (o : op B) (d : dset) sp, WF d ->
+  spec A B W Nm beq of_bool o d = Some sp ->
+  exists outs, apply A B W Nm beq of_bool o d = Some outs /\ length outs = length sp /\
+    forall k r, nth_error outs k = Some r ->
+      exists rows cols tcols g,
+        Forall (fun i => i < nsamples d) rows /\
+        d_recs (o_ds r) = map (fun x => sel x cols) (sel (d_recs d) rows) /\
+        d_tgts (o_ds r) = map (fun t => map g (sel t tcols)) (sel (d_tgts d) rows) /\
+        d_ws (o_ds r) = (if carries_weights B o then sel (d_ws d) rows else []) /\
+        (carries_weights B o = true -> d_ws d <> [] -> length (d_ws (o_ds r)) = nsamples (o_ds r)).
+Proof. exact (ProofsExt.weights_follow_rows A B W Nm beq of_bool beq_spec). Qed.
+
+(** a weight vector that is neither empty nor one per sample (what `with_weights` accepts without a
+    test): the results are those of the same dataset without weights, except that the owned split
+    leaves the WHOLE vector on its first part (the view split drops it), the label filter indexes it by
+    the original sample number and panics past its end, and the cloning operations copy it unchanged *)
+Theorem illformed_weights_behaviour : forall (o : op B) (d : dset),
+  d_ws d <> [] -> length (d_ws d) <> nsamples d -> length (d_tgts d) = nsamples d ->
+  apply A B W Nm beq of_bool o d
+  = match apply A B W Nm beq of_bool o (set_ws A B W Nm d []) with
+    | Some outs0 => ill_weights A B W Nm beq o d outs0
+    | None => None
+    end.
+Proof. exact (ProofsExt.illformed_weights A B W Nm beq of_bool). Qed.
+
 End C02.
+
+(** the weights of the owned split are not protected by any layout test (finding F-C02-1): there is a
+    well-formed dataset (four samples, weight array reversed in memory) on which the code as it stands
+    returns - with consistent sizes - the first two samples with the weights of the last two, while
+    the logical split gives them their own; cutting the weights in logical order removes the
+    difference.  Outside that class: [split_owned_layout_guard] / [layout_only_panics]. *)
+Theorem split_owned_raw_weights_refuted :
+  exists (l : ldset N N N N) d ratio outs,
+    ok_l N N N N l = true /\ logical N N N N l = Some d /\ Proofs.WF N N N N d /\
+    split_owned_l N N N N true ratio l = Some outs /\
+    split_owned N N N N ratio d <> Some outs /\
+    map (fun r => d_ws (o_ds r)) outs = [[7; 5]; [3; 1]]%N /\
+    option_map (map (fun r => d_ws (o_ds r))) (split_owned N N N N ratio d) = Some [[1; 3]; [5; 7]]%N /\
+    split_owned_l N N N N false ratio l = split_owned N N N N ratio d.
+Proof. exact ProofsExt.split_owned_raw_weights_refuted. Qed.
